@@ -1,7 +1,8 @@
 (* C12 property theorems. Nothing but statements closed by [exact], one non-vacuity Example, Print Assumptions.
-   Model = bcache with repairs D3, D24 and D32 (Model.v); fl = the float64 score conversion, f64r g its concrete form. *)
+   Model = bcache with repairs D3, D24 and D32 (Model.v); fl = the int64 -> float64 score conversion, f64 its concrete form (spacing 256 for today's UnixNano,
+   1024 for deadlines beyond 2^62 in magnitude); deadlines are computed in wrapping int64 arithmetic (wrap64). *)
 From VF Require Import Common.Base C12.Model C12.Spec C12.Proofs C12.Proofs2 C12.Interval C12.IntervalProofs
-  C12.Check C12.Proofs3 C12.DecidedProofs.
+  C12.F64 C12.Check C12.Proofs3 C12.DecidedProofs.
 From Coq Require Import Sorting.Sorted.
 Local Open Scope Z_scope.
 
@@ -19,29 +20,46 @@ Theorem C12_index : forall fl defttl tops, ops_wf tops ->
   (forall sc k, In (sc, k) (visit s) <-> exists v d, m_get (member s) k = Some (v, d) /\ d <> 0 /\ sc = fl d).
 Proof. exact index_inv. Qed.
 
-(* Get returns the entry last stored and not deleted/cleared since, never past its deadline (now <= d), and
-   always while fl now < fl d (resp. now + g < d). For d - g <= now <= d the result depends on whether a sweep
-   has run in that window: the sweep compares rounded scores (fl d <= fl now) while Get compares now > d. *)
-Theorem C12_get_live_generic : forall fl defttl (fl_mono : forall x y, x <= y -> fl x <= fl y) tops now k,
+(* Get returns the entry last stored and not deleted/cleared since, never past its deadline, showing the
+   deadline d when d > 0 and the zero time (0) when d <= 0 (no deadline, or a deadline that WRAPPED negative);
+   and it always returns it when d <= 0 or fl now < fl d (resp. now + 1024 < d). For d - 1024 <= now <= d the
+   result depends on whether a sweep has run in that window: the sweep compares rounded scores (fl d <= fl now)
+   while Get compares now > d. *)
+Theorem C12_get_live_generic : forall fl defttl (fl_mono : forall x y, x <= y -> fl x <= fl y)
+  (fl_neg : forall x, x < 0 -> fl x < 0) tops now k,
   times_ok (tops ++ [(now, OGet k)]) -> ops_wf tops ->
   let s := fst (mrun fl defttl st0 tops) in
   let h := combine tops (snd (mrun fl defttl st0 tops)) in
-  (forall v d, snd (mstep fl defttl s now (OGet k)) = OutGet (Some (v, d)) ->
-               last_stored defttl k h = Some (v, d) /\ (d = 0 \/ now <= d)) /\
-  (forall v d, last_stored defttl k h = Some (v, d) -> (d = 0 \/ fl now < fl d) ->
-               snd (mstep fl defttl s now (OGet k)) = OutGet (Some (v, d))).
+  (forall v sd, snd (mstep fl defttl s now (OGet k)) = OutGet (Some (v, sd)) ->
+     exists d, last_stored defttl k h = Some (v, d) /\ sd = shown d /\ (d <= 0 \/ now <= d)) /\
+  (forall v d, last_stored defttl k h = Some (v, d) -> (d <= 0 \/ fl now < fl d) ->
+               snd (mstep fl defttl s now (OGet k)) = OutGet (Some (v, shown d))).
 Proof. exact get_live_generic. Qed.
 
-Theorem C12_get_live : forall g defttl tops now k, 0 < g ->
+Theorem C12_get_live : forall defttl tops now k,
   times_ok (tops ++ [(now, OGet k)]) -> ops_wf tops ->
-  let fl := f64r g in
-  let s := fst (mrun fl defttl st0 tops) in
-  let h := combine tops (snd (mrun fl defttl st0 tops)) in
-  (forall v d, snd (mstep fl defttl s now (OGet k)) = OutGet (Some (v, d)) ->
-               last_stored defttl k h = Some (v, d) /\ (d = 0 \/ now <= d)) /\
-  (forall v d, last_stored defttl k h = Some (v, d) -> (d = 0 \/ now + g < d) ->
-               snd (mstep fl defttl s now (OGet k)) = OutGet (Some (v, d))).
-Proof. exact get_live_f64r. Qed.
+  let s := fst (mrun f64 defttl st0 tops) in
+  let h := combine tops (snd (mrun f64 defttl st0 tops)) in
+  (forall v sd, snd (mstep f64 defttl s now (OGet k)) = OutGet (Some (v, sd)) ->
+     exists d, last_stored defttl k h = Some (v, d) /\ sd = shown d /\ (d <= 0 \/ now <= d)) /\
+  (forall v d, last_stored defttl k h = Some (v, d) -> (d <= 0 \/ now + 1024 < d) ->
+               snd (mstep f64 defttl s now (OGet k)) = OutGet (Some (v, shown d))).
+Proof. exact get_live_f64. Qed.
+
+(* int64 overflow of the deadline (observed runtime behaviour of time.Now().Add(d).UnixNano(), modelled by
+   wrap64): a TTL with 2^63 <= now + ttl < 2^64 (more than about 235 years today) stores a NEGATIVE deadline;
+   such an entry is returned by every Get with the zero time shown, and survives every sweep - it behaves as an
+   entry without expiry (which is what the property demands of it for the next centuries anyway). Together with
+   C12_get_live (d <= 0 case) it is returned by every later Get until deleted, overwritten or cleared. *)
+Theorem C12_wrap_negative : forall defttl now ttl x, eff_ttl defttl ttl = Some x -> 2 ^ 63 <= now + x < 2 ^ 64 ->
+  new_expire defttl now ttl = now + x - 2 ^ 64 /\ new_expire defttl now ttl < 0.
+Proof. exact wrap_negative. Qed.
+
+Theorem C12_wrapped_never_expires : forall fl (fl_neg : forall x, x < 0 -> fl x < 0) defttl s k v d,
+  Inv fl s -> m_get (member s) k = Some (v, d) -> d < 0 ->
+  forall now, mstep fl defttl s now (OGet k) = (s, OutGet (Some (v, 0))) /\
+              m_get (member (m_sweep fl s now)) k = Some (v, d).
+Proof. exact wrapped_never_expires. Qed.
 
 (* an entry without expiry is never removed by a sweep; a sweep removes exactly the timed entries whose
    score lies in [0, fl now] *)
@@ -73,16 +91,15 @@ Theorem C12_replace : forall fl defttl s now k v ttl,
   (snd r = OutBool true -> m_get (member (fst r)) k = Some (v, new_expire defttl now ttl)).
 Proof. exact replace_cond. Qed.
 
-(* Count = number of stored entries; after a sweep at [now] every remaining entry is untimed or has now < d,
-   and nothing untimed or with now + g < d has been removed *)
-Theorem C12_count : forall g defttl tops now, 0 < g -> times_ok tops -> ops_wf tops ->
-  let fl := f64r g in
-  let s := fst (mrun fl defttl st0 tops) in
-  let s' := m_sweep fl s now in
-  snd (mstep fl defttl s now OCount) = OutCount (length (member s)) /\
-  (forall k v d, m_get (member s') k = Some (v, d) -> m_get (member s) k = Some (v, d) /\ (d = 0 \/ now < d)) /\
-  (forall k v d, m_get (member s) k = Some (v, d) -> d = 0 \/ now + g < d -> m_get (member s') k = Some (v, d)).
-Proof. exact count_sweep_f64r. Qed.
+(* Count = number of stored entries; after a sweep at [now] every remaining entry has d <= 0 (no deadline, or
+   wrapped) or now < d, and nothing with d <= 0 or now + 1024 < d has been removed *)
+Theorem C12_count : forall defttl tops now, ops_wf tops ->
+  let s := fst (mrun f64 defttl st0 tops) in
+  let s' := m_sweep f64 s now in
+  snd (mstep f64 defttl s now OCount) = OutCount (length (member s)) /\
+  (forall k v d, m_get (member s') k = Some (v, d) -> m_get (member s) k = Some (v, d) /\ (d <= 0 \/ now < d)) /\
+  (forall k v d, m_get (member s) k = Some (v, d) -> d <= 0 \/ now + 1024 < d -> m_get (member s') k = Some (v, d)).
+Proof. exact count_sweep_f64. Qed.
 
 (* Export, then Clear+Load: exactly the entries not expired at the load instant, with their deadlines,
    and the deadline index rebuilt *)
@@ -94,19 +111,21 @@ Theorem C12_roundtrip : forall fl defttl tops, ops_wf tops ->
     member s' = filter (fun p => negb (expired now' (snd (snd p)))) (member s) /\ Inv fl s'.
 Proof. exact roundtrip_reachable. Qed.
 
-(* the concrete score conversion meets the hypotheses used above *)
-Theorem C12_f64r_round : forall g, 0 < g ->
-  (forall x y, x <= y -> f64r g x <= f64r g y) /\
-  (forall x, - g <= 2 * (f64r g x - x) <= g) /\
-  (forall x, 0 <= x -> 0 <= f64r g x).
-Proof. exact f64r_round. Qed.
+(* the concrete score conversion (float64 of an int64; checked against the real index dump on every step of
+   every run) meets the hypotheses used above *)
+Theorem C12_f64_round :
+  (forall x y, x <= y -> f64 x <= f64 y) /\
+  (forall x, - 1024 <= 2 * (f64 x - x) <= 1024) /\
+  (forall x, 0 <= x -> 0 <= f64 x) /\
+  (forall x, x < 0 -> f64 x < 0).
+Proof. exact f64_round. Qed.
 
 (* no false alarm: observations that the reference semantics can produce for SOME instants inside the
    recorded clock brackets are accepted by the interval checker *)
-Theorem C12_admissible_complete : forall g defttl tr, 0 < g ->
-  (exists ts, within tr ts /\ spec_outputs (f64r g) defttl tr ts = observed tr) ->
-  admissible_b g defttl tr = true.
-Proof. exact admissible_complete_f64r. Qed.
+Theorem C12_admissible_complete : forall defttl tr,
+  (exists ts, within tr ts /\ spec_outputs f64 defttl tr ts = observed tr) ->
+  admissible_b 1024 defttl tr = true.
+Proof. exact admissible_complete_f64. Qed.
 
 (* the evaluated checker reports kind 2 exactly for inadmissible traces *)
 Theorem C12_kind2_iff_inadmissible : forall defttl g t0 steps,
@@ -119,9 +138,9 @@ Proof. exact kind2_iff_inadmissible. Qed.
    exported keys for EVERY choice of instants inside the brackets (outputs compared up to exact deadline values).
    PARTIAL with respect to DESIGN's admissible_sound_decided: literal equality of outputs is false (an observed
    deadline fixes the instant its store read); see DecidedProofs.v. *)
-Theorem C12_decided_sound_partial : forall g defttl tr, 0 < g -> decided_b g defttl tr = true ->
-  forall ts, within tr ts -> Forall2 out_sim (spec_outputs (f64r g) defttl tr ts) (observed tr).
-Proof. exact decided_sound_f64r. Qed.
+Theorem C12_decided_sound_partial : forall defttl tr, decided_b 1024 defttl tr = true ->
+  forall ts, within tr ts -> Forall2 out_sim (spec_outputs f64 defttl tr ts) (observed tr).
+Proof. exact decided_sound_f64. Qed.
 
 (* non-vacuity: a timed set, an untimed re-set of the same key, a sweep past the old deadline, gets *)
 Example C12_nonvacuous :
@@ -130,7 +149,7 @@ Example C12_nonvacuous :
                (3030, OSet 3 13 40); (3040, OLoad [(3, (14, 0)); (4, (15, 3000)); (5, (16, 9000))]);
                (4000, OSweep); (4010, OGet 3); (4020, OExport)] in
   times_ok tops /\ ops_wf tops /\
-  snd (mrun (f64r 4) 40 st0 tops)
+  snd (mrun f64 40 st0 tops)
   = [OutUnit; OutUnit; OutUnit; OutGet (Some (11, 0)); OutBool true; OutCount 2; OutGet None; OutUnit;
      OutExport [(1, (11, 0))]; OutUnit; OutUnit; OutUnit; OutGet (Some (14, 0));
      OutExport [(1, (11, 0)); (3, (14, 0)); (5, (16, 9000))]].
@@ -149,12 +168,28 @@ Example C12_nonvacuous_nonpositive_default :
   let tops d := [(1000, OSet 1 10 0); (1010, OSet 2 11 d); (1020, OSetIfAbsent 3 12 0); (1030, OSet 4 13 40);
                  (1040, OReplace 4 14 0); (5000, OSweep); (5010, OExport)] in
   forall d, In d [-1; -5000000; 0] ->
-  snd (mrun (f64r 256) d st0 (tops d))
+  snd (mrun f64 d st0 (tops d))
   = [OutUnit; OutUnit; OutBool true; OutUnit; OutBool true; OutUnit;
      OutExport [(1, (10, 0)); (2, (11, 0)); (3, (12, 0)); (4, (14, 0))]].
 Proof.
   cbv zeta. intros d [<-|[<-|[<-|[]]]]; vm_compute; reflexivity.
 Qed.
+
+(* non-vacuity for wrapped deadlines, with the numbers observed on the real code: at now = 1790830761457470176
+   a Set with ttl = MaxInt64 stores Expire = -7432541275397305633 (index score rounded to a multiple of 1024);
+   the entry survives sweeps, Get shows the zero time, Export shows the negative deadline, and it can be
+   replaced; a SetDefault on a cache whose default is 250 years wraps as well *)
+Example C12_nonvacuous_wrapped :
+  let t0 := 1790830761457470176 in
+  let r := mrun f64 7884000000000000000 st0
+             [(t0, OSet 1 10 9223372036854775807); (t0 + 1000, OSet 2 11 0); (t0 + 2000, OSweep);
+              (t0 + 3000, OGet 1); (t0 + 4000, OExport); (t0 + 5000, OReplace 1 12 40000);
+              (t0 + 6000, OGet 1); (t0 + 90000, OSweep); (t0 + 91000, OCount)] in
+  snd r = [OutUnit; OutUnit; OutUnit; OutGet (Some (10, 0));
+           OutExport [(1, (10, -7432541275397305633)); (2, (11, t0 + 1000 + 7884000000000000000 - 2 ^ 64))];
+           OutBool true; OutGet (Some (12, t0 + 45000)); OutUnit; OutCount 1]
+  /\ visit (fst r) = [(f64 (t0 + 1000 + 7884000000000000000 - 2 ^ 64), 2)].
+Proof. vm_compute. split; reflexivity. Qed.
 
 (* Load onto an arbitrary cache (D32 repaired): every key of the data whose entry is not expired at the load
    instant holds exactly the loaded (value, deadline), every other key is unchanged, and the index invariant
@@ -179,7 +214,7 @@ Proof. exact aload_covers_multi_instant. Qed.
    a timed entry leaves the old deadline in the index, and the next sweep past it deletes the entry that was
    loaded WITHOUT expiry (replayed on the real code: findings/D32-bcache-load-keeps-stale-deadline.json) *)
 Example C12_load_old_refuted :
-  let fl := f64r 4 in
+  let fl := f64 in
   let s := fst (mrun fl 0 st0 [(1000, OSet 1 10 40)]) in
   let s1 := load_into_old fl s [(1, (11, 0))] 1001 in
   let s2 := load_into fl s [(1, (11, 0))] 1001 in
@@ -200,9 +235,9 @@ Example C12_nonvacuous_trace :
               {| t_op := OLoad [(3, (13, 0)); (4, (14, 1500))]; t_a := 2050; t_b := 2052; t_out := OutUnit |};
               {| t_op := OSweep; t_a := 3000; t_b := 3002; t_out := OutUnit |};
               {| t_op := OGet 3; t_a := 3010; t_b := 3012; t_out := OutGet (Some (13, 0)) |} ] in
-  trace_wf tr /\ admissible_b 4 0 tr = true /\ decided_b 4 0 tr = true /\
+  trace_wf tr /\ admissible_b 1024 0 tr = true /\ decided_b 1024 0 tr = true /\
   within tr [1001; 1011; 1021; 2001; 2011; 2021; 2031; 2041; 2051; 3001; 3011] /\
-  spec_outputs (f64r 4) 0 tr [1001; 1011; 1021; 2001; 2011; 2021; 2031; 2041; 2051; 3001; 3011] = observed tr.
+  spec_outputs f64 0 tr [1001; 1011; 1021; 2001; 2011; 2021; 2031; 2041; 2051; 3001; 3011] = observed tr.
 Proof.
   cbv zeta. split; [repeat constructor; simpl; try lia; intuition lia|].
   split; [vm_compute; reflexivity|]. split; [vm_compute; reflexivity|].
@@ -221,7 +256,9 @@ Print Assumptions C12_count.
 Print Assumptions C12_roundtrip.
 Print Assumptions C12_load.
 Print Assumptions C12_load_multi_instant.
-Print Assumptions C12_f64r_round.
+Print Assumptions C12_f64_round.
+Print Assumptions C12_wrap_negative.
+Print Assumptions C12_wrapped_never_expires.
 Print Assumptions C12_admissible_complete.
 Print Assumptions C12_kind2_iff_inadmissible.
 Print Assumptions C12_decided_sound_partial.
